@@ -586,3 +586,7 @@ mod test {
     //   - sub item 2
     // [ [Plain, BulletList([[Plain]])], [Plain, BulletList([[Plain]])]]
 }
+
+#[cfg(kani)]
+#[path = "/verif/kani/sections_builder.rs"]
+mod verif_kani;
